@@ -388,6 +388,8 @@ def run(rep):
     from ..engines import diag
     lf = core.library_facts()
     diag.run(rep, lf, "C05")
+    from ..engines import dispatch
+    dispatch.run(rep, lf, "C05")
     from . import C12
     C12.eaten_rule(rep, lf, "C05.d")
     rep.units.update(os.path.relpath(t, core.REPO) for t in lf.tus)
